@@ -34,6 +34,9 @@ func verifSymbolic() bool
 func verifInPlaceAppends() int
 func verifConcretize(x, lo, hi int) int
 func verifIsNaN(f float64) bool
+func verifRaceDetect()
+func verifGo(f func())
+func verifYield()
 `, pkg))
 }
 
@@ -47,6 +50,7 @@ import (
 	"fmt"
 	"math"
 	"os"
+	"time"
 )
 
 type verifRec struct {
@@ -197,5 +201,8 @@ func verifConcretize(x, lo, hi int) int {
 	return x
 }
 func verifIsNaN(f float64) bool { return f != f }
+func verifRaceDetect()         {}
+func verifGo(f func())         { go f() }
+func verifYield()              { time.Sleep(3 * time.Millisecond) } // lets other goroutines reach their blocking point
 `, pkg))
 }
